@@ -278,4 +278,60 @@ theorem syntaxFacts_pow2 (feats : Features) (fmt : Format) (hpf : feats.powerOfT
         _ = S * r ^ n.exponent.toNat * (r ^ fl * r ^ (-n.explicitExp).toNat) := by
             rw [hexpo, Nat.pow_add, Nat.pow_add]; ring
 
+/-! ## API level -/
+
+/-- **`C05_generic_main`** — generic radices (the 29 radices with Bellerophon tables, `radix` builds, `compact` or not,
+exponent base = radix), separator-free format classes of C12, `f32`/`f64`, complete and partial parser, inputs of bytes
+shorter than `2^60`: the pipeline with the modelled slow path prints what the specification prints. The syntax layer is
+discharged; what remains, per `Number` of the input: `hslow` (`SlowFacts`: what `digit_comp` / `byte_comp` make of a
+bracketing invalid-marked estimate) and, for radix 31 only, `h31` (a truncated mantissa of at least 55 bits). -/
+theorem C05_generic_main (feats : Features) (fmt : Format) (G : GenericClass ⟨feats, fmt, false⟩)
+    (hfeat : feats.radix = true → feats.powerOfTwo = true)
+    (hclass : feats.format = false ∨ C12.SepPrefixFree fmt)
+    (o : POpts) {F : FTy} (hF : IsLemireFloat F) (isPartial : Bool) (s : List Nat)
+    (h256 : ∀ x ∈ s, x < 256) (hlen : s.length < 2 ^ 60)
+    (h31 : fmt.mantissaRadix = 31 → ∀ n cnt, parseFloatSyntax ⟨feats, fmt, false⟩ o isPartial s
+      (formatError feats fmt).isNone = .ok (.number n cnt) → n.manyDigits = true → 2 ^ 55 ≤ n.mantissa)
+    (hslow : ∀ n cnt, parseFloatSyntax ⟨feats, fmt, false⟩ o isPartial s (formatError feats fmt).isNone =
+      .ok (.number n cnt) → SlowFacts slowModel ⟨feats, fmt, false⟩ F n) :
+    parseFloatAlgoModel slowModel feats fmt o isPartial F s = parseFloatModel feats fmt o isPartial F.fmt s := by
+  apply C01Final.parseFloatAlgoModel_eq_valid
+  intro hval n cnt hp
+  exact numberToFloat_radix slowModel hF ⟨feats, fmt, false⟩ (.generic G) n
+    (syntaxFacts_generic feats fmt G hfeat hclass o hval isPartial s _ h256 hlen n cnt hp (fun h => h31 h n cnt hp))
+    (fun _ => hslow n cnt hp)
+
+/-- **`C05_pow2_main`** — power-of-two radices (2, 4, 8, 16, 32) with exponent base = radix, every `power-of-two` build:
+**no slow-path hypothesis** (`binary` / `slow_binary` are proved); what remains, per `Number` of the input: `hexp`, the
+exponent word inside `±2^27`. -/
+theorem C05_pow2_main (feats : Features) (fmt : Format) (hpf : feats.powerOfTwo = true)
+    (hpw : IsPow2 fmt.mantissaRadix) (hbase : fmt.exponentBase = fmt.mantissaRadix)
+    (hclass : feats.format = false ∨ C12.SepPrefixFree fmt)
+    (o : POpts) {F : FTy} (hF : IsLemireFloat F) (isPartial : Bool) (s : List Nat)
+    (h256 : ∀ x ∈ s, x < 256) (hlen : s.length < 2 ^ 60)
+    (hexp : ∀ n cnt, parseFloatSyntax ⟨feats, fmt, false⟩ o isPartial s (formatError feats fmt).isNone =
+      .ok (.number n cnt) → ExpInRange n.exponent) :
+    parseFloatAlgoModel slowModel feats fmt o isPartial F s = parseFloatModel feats fmt o isPartial F.fmt s := by
+  apply C01Final.parseFloatAlgoModel_eq_valid
+  intro hval n cnt hp
+  have hb2 : IsPow2 (⟨feats, fmt, false⟩ : Cfg).exponentBase := by
+    have : (⟨feats, fmt, false⟩ : Cfg).exponentBase = fmt.mantissaRadix := hbase
+    rw [this]; exact hpw
+  exact numberToFloat_radix slowModel hF ⟨feats, fmt, false⟩ (.pow2 hpf hpw hb2) n
+    (syntaxFacts_pow2 feats fmt hpf hpw hbase hclass o hval isPartial s _ h256 hlen n cnt hp (hexp n cnt hp))
+    (fun G => absurd hpw (generic_not_isPow2 G.mem))
+
+/-- non-vacuity: the hexadecimal format (exponent base 16) of a `power-of-two` build; the radix-3 format of a `radix` build -/
+example (s : List Nat) (h256 : ∀ x ∈ s, x < 256) (hlen : s.length < 2 ^ 60)
+    (hexp : ∀ n cnt, parseFloatSyntax ⟨{ powerOfTwo := true }, ⟨0x0a10100000000000000000000000000c⟩, false⟩ {} false s
+      (formatError { powerOfTwo := true } ⟨0x0a10100000000000000000000000000c⟩).isNone = .ok (.number n cnt) →
+      ExpInRange n.exponent) :
+    parseFloatAlgoModel slowModel { powerOfTwo := true } ⟨0x0a10100000000000000000000000000c⟩ {} false FTy.f64 s =
+      parseFloatModel { powerOfTwo := true } ⟨0x0a10100000000000000000000000000c⟩ {} false f64 s :=
+  C05_pow2_main { powerOfTwo := true } ⟨0x0a10100000000000000000000000000c⟩ rfl
+    (by unfold IsPow2; decide) (by decide) (Or.inl rfl) {} (Or.inl rfl) false s h256 hlen hexp
+
+example : GenericClass ⟨{ powerOfTwo := true, radix := true }, ⟨0x0303030000000000000000000000000c⟩, false⟩ :=
+  ⟨rfl, by decide, by decide⟩
+
 end LexVerif.Props.C05Syntax
